@@ -98,6 +98,43 @@ CLAIMED = {
          "DESIGN.md §2 C17"),
 }
 
+
+# additions made after the seeded-change campaign (DESIGN.md §6): id -> (technique addition, level-text addition)
+EXTRA = {
+ "C01": ("copy-origin rule (what expandAugment/expandUses insert derives from clone() or a Builder constructor), per-iteration rule for the implied case of a shorthand node augmented into a choice, field-coverage and loop-completeness rules for copyOverSubmoduleData, memo-key completeness for lookup caches of the resolver, and the loop-exit rule for feature-disabled siblings",
+         "Also decided: an expansion inserts copies, never the statement's own nodes; every shorthand node augmented into a choice gets its own case; every collection a submodule can fill is carried over and no element of it can be skipped; a lookup cache of the resolver is keyed by everything the lookup reads from its argument (lexical scope included); a refine disabled by if-feature does not end the refine loop."),
+ "C02": ("polarity-aware guard rule for default/units inheritance (the test must be that the LEAF states none, on that side) and memo-key completeness for caches in compile.go",
+         "Also decided: the typedef's units/default are installed only on the side of the test where the leaf itself states none; a typedef lookup cache is keyed by the scope it walks, not by module and name."),
+ "C04": ("must-pass-through rule on containerMetaList.lookAhead (the search ends only with a member found or the member list used up) and the escaper rules shared with C15",
+         "Also decided: the member iterator cannot end early because a choice has no case selected; value text reaches the JSON output only through the escaping loop (see C15)."),
+ "C05": ("field read/write coverage of meta.RangeNumber, dominance rule for the float parse of a bound (only after both 64-bit integer parses failed), and the registration rules of C07 (AddConstraint appends, NewConstraints copies the parent's entries)",
+         "Also decided: every representation of a bound the comparison reads is filled by the parser, a whole-number bound is never parsed as float64 first, and the type check of written values — a registered constraint — survives later registrations and is inherited by child constraint sets."),
+ "C06": ("append-only rule for slice-held sibling collections at parse time, and a path-condition rule on lexer.acceptString (a skipped character only after a backslash inside double quotes)",
+         "Also decided: a statement is added to a slice-held collection at its end only (no element store, no shifting copy), and a backslash escapes only inside double-quoted strings."),
+ "C07": ("append-dominates-return and no-element-store rules on the constraint registry, a scan for ==/!= on val.Value.String() in the request path, and an identity-comparison rule for the depth walk",
+         "Also decided: registering a constraint never replaces or drops a registered one (parameters given in two rounds intersect) and a child set copies its parent's entries; typed values are never compared through their text; the depth of a request is counted from the node whose schema identity equals the request base."),
+ "C08": ("may-be-nil analysis of the Target stored in each navigation request",
+         "Also decided: the navigation mark is set on every step, the last one included."),
+ "C09": ("per-iteration rule for the implied case (with C01) and the no-stale-verdicts rule: a table of data-derived answers (which case holds data) must be cleared somewhere and its holder must not be copied by value",
+         "Also decided: shorthand nodes augmented into a choice get one case each; a node that remembers which case is active forgets it when written and does not share the table between copies of itself."),
+ "C11": ("guard rule on a replacing store of the enabled feature set (only while it is nil), loop-membership rule for the write-back of deviate delete, extraction of the operator → (greedy) table of the if-feature evaluator with a back-edge dominance rule for the one-operand return, and memo-key completeness",
+         "Also decided: initialising an imported module cannot discard the features of the modules initialised before; each must/unique named by one deviate delete is removed; `and`/`not` take one operand, `or`/`(` the rest, and a call asked for one operand returns after any token completed one (precedence not > and > or). The truth tables of the combinations and the tokeniser remain undecided."),
+ "C14": ("the submodule-merge rules of C01 (an import skipped while merging a submodule is never resolved and is a nil module later)",
+         "Also decided: no element of a submodule's collections can be skipped while it is merged."),
+ "C15": ("evaluation of the escaping tables (safeSet/htmlSafeSet) from the source and of any shortcut's character set against them, use-analysis of the text argument in JSONWtr.writeString and in the package-level escaper (only loop-cut spans are copied), and a field-chain rule for the two nodes whose modules are compared for qualification",
+         "Also decided: no shortcut in front of the escaper lets a byte through that the tables say must be escaped; the tables themselves mark control characters, quote and backslash unsafe; a member is qualified by comparing its module with that of the enclosing DATA node (p.Parent.Meta), not the schema parent."),
+ "C16": ("identity-comparison rule for the base list of where, the no-stale-verdicts rule for when outcomes, and C17's sign-derivation analysis run over the same Compare methods",
+         "Also decided: where recognises its list by schema-node identity, not by name; a when verdict is not remembered without invalidation; every Compare the comparisons rest on derives its sign from an exact comparison."),
+ "C17": ("every-return-from-one-comparator rule on sliceSorter.Less and the no-value-text-equality scan",
+         "Also decided: the sort order of the key index is decided by val.CompareVals on every path, and key leaves are never matched through their String()."),
+ "C18": ("a scan for re-slicing beyond the length in the slice-backed list nodes, and C03's lookup-before-create rules reported under this property",
+         "Also decided: a slice-backed list grows only by appending a created item (never by re-slicing into stale capacity), and the editor looks an entry up by key before creating one."),
+ "C19": ("accessor-chain rule for the namespace an element remembers for its children",
+         "Also decided: XMLWtr2.ns is OriginalModule(d).Namespace() of the definition the element is named after, wherever an element is built."),
+ "C20": ("concrete-type analysis of every initialised package-level variable against the set of repository types whose methods write to their receiver",
+         "Also decided: no package-level variable of the library holds an object with self-mutating methods (a shared feature set, builder or cache), one exemption with its reason."),
+}
+
 NOT_YET = "check not built yet in this session; see DESIGN.md for the planned static clauses"
 NOT_APPLICABLE = {}
 
@@ -108,6 +145,8 @@ def main():
         pid = p["id"]
         if pid in CLAIMED:
             tech, text, note, ref = CLAIMED[pid]
+            if pid in EXTRA:
+                tech, text = tech + "; " + EXTRA[pid][0], text + " " + EXTRA[pid][1]
             checks.append({
                 "property_id": pid,
                 "quick_cmd": "./check %s quick" % pid,
